@@ -973,7 +973,9 @@ func (fc *funcContext) makeReceiver(e *ast.SelectorExpr) *expression {
 		x = fc.setType(&ast.UnaryExpr{Op: token.AND, X: x}, recvType)
 	}
 	if isPointer && !pointerExpected {
-		x = fc.setType(x, methodsRecvType)
+		// The method has a value receiver: the receiver is *x, evaluated (and copied) now.
+		recvType = methodsRecvType
+		x = fc.setType(&ast.StarExpr{X: x}, methodsRecvType)
 	}
 
 	recv := fc.translateImplicitConversionWithCloning(x, methodsRecvType)
